@@ -218,3 +218,27 @@ MUTANTS += [
     ("c15_precision_not_keyed", "C15", "cache.py", "        h.update(precision.encode())\n", ""),
     ("c15_profiles_first_only", "C15", "cache.py", "        for arr in profiles:\n            h.update(np.asarray(arr).tobytes())\n", "        for arr in profiles[:1]:\n            h.update(np.asarray(arr).tobytes())\n"),
 ]
+
+MUTANTS += [
+    # ---- C14
+    ("c14_as_completed", "C14", "interface.py", "        with ProcessPoolExecutor(max_workers=max_workers) as pool:\n            flat_results = list(pool.map(_worker_single, tasks))\n", "        from concurrent.futures import as_completed\n        with ProcessPoolExecutor(max_workers=max_workers) as pool:\n            flat_results = [f.result() for f in as_completed([pool.submit(_worker_single, t) for t in tasks])]\n"),
+    ("c14_idx_stride", "C14", "interface.py", "            idx += n_time\n", "            idx += max(n_time - 1, 1)\n"),
+    ("c14_keyed_by_last_tower", "C14", "interface.py", "            results[tower.name] = step_results\n", "            results[config.towers[-1].name if len(results) == 0 and len(config.towers) > 2 else tower.name] = step_results\n"),
+    ("c14_timeseries_step0", "C14", "interface.py", "            config, tower, met_index=i, surface_flux=surface_flux, cache=cache\n", "            config, tower, met_index=i if cache is None else 0, surface_flux=surface_flux, cache=cache\n"),
+    ("c14_towers_unordered", "C14", "interface.py", "        results = {name: res for name, res in futures}\n", "        results = {name: res for name, res in sorted(futures, key=lambda x: x[0])}\n"),
+    ("c14_time_strategy_reversed", "C14", "interface.py", "                step_results = list(pool.map(_worker_single, tasks))\n            results[tower.name] = step_results\n", "                step_results = list(pool.map(_worker_single, tasks[::-1]))\n            results[tower.name] = step_results\n"),
+    ("c14_worker_uses_first_tower", "C14", "interface.py", "    return tower.name, run_bldfm_timeseries(config, tower)\n", "    return tower.name, run_bldfm_timeseries(config, config.towers[0] if tower.z_m == config.towers[0].z_m else tower)\n"),
+    ("c14_multitower_shares_list", "C14", "interface.py", "        results[tower.name] = run_bldfm_timeseries(\n            config, tower, surface_flux=surface_flux\n        )\n", "        results[tower.name] = run_bldfm_timeseries(\n            config, tower if len(results) < 2 else config.towers[1], surface_flux=surface_flux\n        )\n"),
+    ("c14_cache_shared_across_towers", "C14", "cache.py", "        h.update(np.asarray(meas_pt).tobytes())\n", "        h.update(np.asarray(np.round(meas_pt, -3)).tobytes())\n"),
+]
+
+MUTANTS += [
+    # ---- C12
+    ("c12_memo_eigval_by_shape", "C12", "solver.py", "    # initialization of output arrays\n", "    eigval = steady_state_transport_solver.__dict__.setdefault(('eig', nlx, nly, len(z)), eigval)\n    # initialization of output arrays\n"),
+    ("c12_precision_sticky", "C12", "solver.py", "    if precision == \"single\":\n\n        tfftp = np.zeros", "    if steady_state_transport_solver.__dict__.setdefault('prec', precision) == \"single\":\n\n        tfftp = np.zeros"),
+    ("c12_poisoned_wisdom_fatal", "C12", "fft_manager.py", "        except Exception as e:\n            logger.warning(f\"Failed to load wisdom: {e}\")\n", "        except pickle.UnpicklingError as e:\n            logger.warning(f\"Failed to load wisdom: {e}\")\n"),
+    ("c12_single_sloppy", "C12", "solver.py", "    conc = p[:, py : nye - py, px : nxe - px]\n", "    if precision == 'single':\n        p = p.astype(np.float16).astype(np.float64)\n    conc = p[:, py : nye - py, px : nxe - px]\n"),
+    ("c12_thread_dependent_result", "C12", "solver.py", "            set_num_threads(config.NUM_THREADS)\n", "            set_num_threads(config.NUM_THREADS)\n            eigval = eigval * (1.0 + 1e-9)\n"),
+    ("c12_state_leak_levels", "C12", "solver.py", "    nlvls = len(levels)\n\n    # halo to deal", "    nlvls = len(levels)\n    levels = steady_state_transport_solver.__dict__.setdefault(('lv', nlvls, len(z)), levels)\n\n    # halo to deal"),
+    # c12_manager_threads_scale dropped: the module-level fft2/ifft2 always re-create a 1-thread manager, so the FFT thread count never varies
+]
